@@ -75,7 +75,7 @@ fn arm_of(r: &Req) -> (u8, usize) {
 // model vocabulary: keys of rows, cells of the daily log (1 = Person, 2 = Pet of the main room, 0 = not logged)
 fn k_setup(i: usize) -> u64 { 20000 + i as u64 }
 fn ops_of(r: &Req) -> Vec<Vec<String>> {
-    let put = |k: u64, v: u64, c: u64| format!("Put {} {} {}", gn(k), gn(v), gn(c));
+    let put = |k: u64, v: u64, c: u64| format!("Put {} {} {}", gn(c), gn(k), gn(v));
     match r {
         Req::Mut { persons } => {
             let mut g = vec![];
@@ -86,7 +86,7 @@ fn ops_of(r: &Req) -> Vec<Vec<String>> {
             vec![g]
         }
         Req::Upd { target, label } => vec![vec![put(k_setup(*target), *label, 1)]],
-        Req::Del { target } => vec![vec![format!("Del {} {}", gn(k_setup(*target)), gn(1))]],
+        Req::Del { target } => vec![vec![format!("Del {} {}", gn(1), gn(k_setup(*target)))]],
         Req::Nodes { labels } => labels.iter().map(|l| vec![put(*l, *l, 1)]).collect(),
         Req::Room { label } => vec![vec![put(40000 + label, 1, 0), put(45000 + label, 1, 0)]],
         Req::RoomUpd { label, pet, .. } => { let mut g = vec![put(40000 + label, 1, 0)]; if let Some(q) = pet { g.push(put(*q, *q, 2)); } vec![g] }
@@ -289,6 +289,12 @@ fn ids_from(out: &str, st: &State) -> Ids {
 }
 
 // ------------------------------------------------------------------ child
+extern "C" { fn _exit(code: i32) -> !; }
+/// leave without running exit handlers: the instance's threads are still using SQLCipher / OpenSSL
+fn quit() -> ! {
+    let _ = std::io::stdout().flush();
+    unsafe { _exit(0) }
+}
 struct Gate { key: u64, entered: Option<tokio::sync::oneshot::Sender<()>>, release: std::sync::mpsc::Receiver<()> }
 impl Writeable for Gate {
     fn write(&mut self, conn: &rusqlite::Connection) -> std::result::Result<(), rusqlite::Error> {
@@ -509,7 +515,7 @@ async fn child(dir: PathBuf, spec: PathBuf, mode: u8, k: u64, out: PathBuf) {
         Err(e) => log.line(format!("X dump {}", e.replace('\n', " "))),
     }
     log.line(format!("END {} {}", fired, hits));
-    std::process::exit(0);
+    quit();
 }
 
 // ------------------------------------------------------------------ verifier
@@ -544,7 +550,7 @@ async fn verify(dir: PathBuf, spec: PathBuf, out: PathBuf) {
     p.add("room", base64_encode(&ids.room)).unwrap();
     let again = svc.mutate_raw(r#"mutate { ns.Person{ room_id:$room name:"AFTER" } }"#, Some(p)).await.is_ok();
     println!("{}", json!({"inv0": inv0, "inv1": inv1, "cons1": cons1, "recomputed": recomputed, "vis": vis, "vis0": vis0, "api_ok": api_ok, "again": again, "journal_mode": st1.journal_mode}));
-    std::process::exit(0);
+    quit();
 }
 
 // ------------------------------------------------------------------ parent
@@ -580,14 +586,14 @@ fn gen_workload(rng: &mut Rng, n_phases: usize, max_reqs: usize) -> Workload {
     Workload { key, n_setup, phases, gate_ms: 12 }
 }
 
-struct RunResult { mode: u8, k: u64, alive: bool, out: String, trace: Vec<(u8, u8)>, ver: Option<serde_json::Value>, err: Option<String> }
+struct RunResult { mode: u8, k: u64, alive: bool, out: String, trace: Vec<(u8, u8)>, ver: Option<serde_json::Value>, err: Option<String>, retries: usize }
 
 fn run_one(exe: &Path, base: &Path, wid: usize, spec: &Path, mode: u8, k: u64) -> RunResult {
     let dir = base.join(format!("w{}_{}_{}", wid, mode, k));
     let _ = std::fs::remove_dir_all(&dir);
     std::fs::create_dir_all(&dir).unwrap();
     let out = dir.join("acks.txt");
-    let mut res = RunResult { mode, k, alive: false, out: String::new(), trace: vec![], ver: None, err: None };
+    let mut res = RunResult { mode, k, alive: false, out: String::new(), trace: vec![], ver: None, err: None, retries: 0 };
     let st = std::process::Command::new(exe).arg("child").arg(&dir).arg(spec).arg(mode.to_string()).arg(k.to_string()).arg(&out)
         .stdout(std::process::Stdio::null()).stderr(std::process::Stdio::piped()).output();
     match st {
@@ -603,14 +609,24 @@ fn run_one(exe: &Path, base: &Path, wid: usize, spec: &Path, mode: u8, k: u64) -
     let tr = std::fs::read(out.with_extension("trace")).unwrap_or_default();
     res.trace = tr.chunks(2).filter(|c| c.len() == 2).map(|c| (c[0], c[1])).collect();
     if res.err.is_none() {
-        let v = std::process::Command::new(exe).arg("verify").arg(&dir).arg(spec).arg(&out).stderr(std::process::Stdio::piped()).output();
-        match v {
-            Ok(o) if o.status.success() => { res.ver = serde_json::from_slice(&o.stdout).ok(); if res.ver.is_none() { res.err = Some("verifier output unreadable".into()); } }
-            Ok(o) => res.err = Some(format!("verifier failed: {}", String::from_utf8_lossy(&o.stderr).chars().take(600).collect::<String>())),
-            Err(e) => res.err = Some(format!("spawn verifier: {}", e)),
+        // the verifier is idempotent as far as the judged observations go; a crash of the verifier process itself
+        // (seen twice in ~500 runs: glibc reports heap corruption while several SQLCipher connections are opened)
+        // is retried and counted
+        for attempt in 0..3 {
+            let v = std::process::Command::new(exe).arg("verify").arg(&dir).arg(spec).arg(&out).stderr(std::process::Stdio::piped()).output();
+            match v {
+                Ok(o) if o.status.success() => {
+                    res.ver = serde_json::from_slice(&o.stdout).ok();
+                    res.err = if res.ver.is_none() { Some("verifier output unreadable".into()) } else { None };
+                    res.retries = attempt;
+                    break;
+                }
+                Ok(o) => res.err = Some(format!("verifier failed: {}", String::from_utf8_lossy(&o.stderr).chars().take(600).collect::<String>())),
+                Err(e) => res.err = Some(format!("spawn verifier: {}", e)),
+            }
         }
     }
-    let _ = std::fs::remove_dir_all(&dir);
+    if std::env::var("VERIF_C13_KEEP").is_err() || res.err.is_none() { let _ = std::fs::remove_dir_all(&dir); }
     res
 }
 
@@ -701,13 +717,16 @@ fn build_case(w: &Workload, wid: usize, r: &RunResult, hits_free: u64) -> Case {
     obs.push(r.alive as i64);
     obs.push(if r.alive { n_hits } else { last_point });
     obs.push(b("inv0")); obs.push(b("inv1") & b("cons1") & b("recomputed")); obs.push(b("again")); obs.push(b("api_ok"));
-    let init: Vec<String> = (0..w.n_setup).map(|i| format!("({}, {}, {})", gn(k_setup(i)), gn(k_setup(i)), gn(1))).collect();
+    obs.push(1); // the case has the shape the theorems assume (wf_case, evaluated by the model side)
+    let mut init: Vec<String> = (0..w.n_setup).map(|i| format!("({}, {}, {})", gn(k_setup(i)), gn(k_setup(i)), gn(1))).collect();
+    init.push(format!("({}, {}, {})", gn(20100), gn(20100), gn(1))); // the set-up's person with a pet
+    init.push(format!("({}, {}, {})", gn(20101), gn(20101), gn(2)));
     let coq = format!("(CRun {} {} {} {})",
         glist(&init),
         glist(&assigned.iter().map(|b| glist(&b.iter().map(|i| req_coq(&flat[*i].1)).collect::<Vec<_>>())).collect::<Vec<_>>()),
         glist(&unsent.iter().map(|i| req_coq(&flat[*i].1)).collect::<Vec<_>>()),
         fault);
-    Case { kind: kind.into(), coq, obs, meta: json!({"base": meta_base, "batches": assigned, "unsent": unsent, "timeouts": timeouts,
+    Case { kind: kind.into(), coq, obs, meta: json!({"base": meta_base, "batches": assigned, "unsent": unsent, "timeouts": timeouts, "verifier_retries": r.retries,
         "vis_before_restart": ver["vis0"], "journal_mode": ver["journal_mode"], "requests": flat.iter().map(|(_, q)| format!("{:?}", q)).collect::<Vec<_>>() }) }
 }
 
@@ -780,7 +799,7 @@ fn parent() {
     }
     let n = out.n;
     out.finish();
-    let _ = std::fs::remove_dir_all(&base);
+    if std::env::var("VERIF_C13_KEEP").is_err() { let _ = std::fs::remove_dir_all(&base); }
     eprintln!("c13: {} runs {:?}", n, counts);
     let bad = counts.get("unscheduled").cloned().unwrap_or(0) + counts.get("broken-run").cloned().unwrap_or(0);
     if bad * 10 > n { eprintln!("c13: too many runs could not be used ({} of {})", bad, n); std::process::exit(3); }
